@@ -1,5 +1,7 @@
 import MpsProofs.Handler
 import MpsProofs.Order
+import MpsProps.C07TwoParty
+import MpsProofs.System
 /-
   C07 — Outcome is independent of delivery order, duplication and early arrival (handler model).
 
@@ -159,5 +161,167 @@ example : Sim (run Hx sc3 ((M3.take 3).reverse.map Call.accept)) (run Hx sc3 ((M
 end Ex
 
 example : ∃ s m, canAccept s m = false := ⟨default, default, by decide⟩
+
+/-! ### multi-party composition
+
+  The theorems above are about ONE handler that is given an `Honest` message set. Here: a session of n handlers
+  (`Mps.System`: one `Handler.State` per party, `Sys.deliver p m` = party `p` accepts `m`) that all run the script
+  `base` (`scriptFor base id` = `base` with `self := id`). A schedule is a list of (recipient, message) pairs; it is
+  `Causal` when every delivered message is, at the time of its delivery, in the `out` list of its sender's handler
+  and addressed to the recipient — any order, any repetition, any interleaving across the parties, any delay.
+  Side conditions (`SessionOk base`, decidable): `ScriptOk base`; no party id is empty (`To = ""` means broadcast);
+  no round number exceeds the final round number (no queue otherwise); at least two parties; no scripted `Finalize`
+  failure. Lemmas in MpsProofs/System.lean. -/
+
+open Mps.System
+
+/-- the state of a party in the session is its handler run on exactly the messages delivered to it (this ties the
+    system model to the single-handler theorems above; no hypothesis) -/
+theorem party_state_is_handler_run (H : Bytes → Bytes) (base : Script) (sched : Sched) (p : Bytes) :
+    (Sys.run H base sched) p = run H (scriptFor base p) ((delivered sched p).map Call.accept) :=
+  run_apply H base sched p
+
+/-- a delivery `(p, m)` is possible in a reachable session state exactly when `p` is a party and `m` is among the
+    messages emitted so far (by whichever party) that are addressed to `p`: the handlers stamp their own id into
+    `From`, so naming the sender by that field in `Sys.canDeliver` loses nothing (no hypothesis) -/
+theorem causal_step_iff (H : Bytes → Bytes) (base : Script) (sched : Sched) (p : Bytes) (m : Msg) :
+    (Sys.run H base sched).canDeliver base p m = true ↔
+      p ∈ base.ids ∧ m ∈ (Sys.run H base sched).emittedFor base p :=
+  canDeliver_iff_emitted H base sched p m
+
+/-- (a) MULTI-PARTY COMPOSITION. For every hash `H`, every common script `base` with `SessionOk base`, EVERY causal
+    schedule and every party `p`: the list of all messages emitted so far (by anybody) that are addressed to `p`
+    is an `Honest` message set for `p` — in particular every sender's echo stamp is `p`'s expected value `expBh`,
+    and there are no two different messages for one (round, sender, kind) -/
+theorem emitted_honest (H : Bytes → Bytes) (base : Script) (ok : SessionOk base) (sched : Sched)
+    (hc : Causal H base sched = true) (p : Bytes) (hp : p ∈ base.ids) :
+    Honest H (scriptFor base p) ((Sys.run H base sched).emittedFor base p) :=
+  System.emitted_honest ok sched hc p hp
+
+/-- … and what a causal schedule delivers to `p` is part of that set: the hypotheses of `order_independent` /
+    `honest_delivery_never_blames` hold for every party of the session -/
+theorem delivered_are_emitted (H : Bytes → Bytes) (base : Script) (sched : Sched) (hc : Causal H base sched = true)
+    (p : Bytes) : ∀ m ∈ delivered sched p, m ∈ (Sys.run H base sched).emittedFor base p :=
+  delivered_emitted H base sched p _ hc
+
+/-- agreement on the broadcasts: there is ONE function `gEcho H base` of the round number (a closed form of the
+    script: the hash over all parties' scripted broadcasts of that round) such that every echo hash in every
+    party's table is its value — and is the value `expBh` the party expects from its peers — and every emitted
+    message is stamped with its value for the preceding round number -/
+theorem echo_tables_agree (H : Bytes → Bytes) (base : Script) (ok : SessionOk base) (sched : Sched)
+    (hc : Causal H base sched = true) :
+    (∀ p ∈ base.ids, ∀ r h, bhLookup ((Sys.run H base sched) p).bh r = some h →
+      gEcho H base r = some h ∧ expBh H (scriptFor base p) ((Sys.run H base sched).emittedFor base p) r = some h) ∧
+    (∀ q ∈ base.ids, ∀ m ∈ ((Sys.run H base sched) q).out, m.bv = gEcho H base (m.rnd - 1)) :=
+  ⟨fun p hp r h hb => tables_agree ok sched hc p hp r h hb, fun q hq m hm => emitted_stamp ok sched hc q hq m hm⟩
+
+/-- (b) in every state the session reaches under a causal schedule, no party has an error: no message failure, no
+    echo mismatch, no protocol abort, no peer abort (and no own failure either) -/
+theorem no_honest_abort (H : Bytes → Bytes) (base : Script) (ok : SessionOk base) (sched : Sched)
+    (hc : Causal H base sched = true) (p : Bytes) (hp : p ∈ base.ids) : ((Sys.run H base sched) p).err = none :=
+  System.no_honest_abort ok sched hc p hp
+
+/-- (c) SCHEDULE INDEPENDENCE. Two causal schedules of the whole session — whatever they do at the other parties —
+    that have delivered the same SET of messages to `p` leave `p` with the same outcome. (The proof uses the
+    causality of the first schedule only: `c2` is not needed, the second schedule may be arbitrary.) -/
+theorem schedule_independent (H : Bytes → Bytes) (base : Script) (ok : SessionOk base) (s1 s2 : Sched)
+    (c1 : Causal H base s1 = true) (_c2 : Causal H base s2 = true) (p : Bytes) (hp : p ∈ base.ids)
+    (hsame : ∀ m, m ∈ delivered s1 p ↔ m ∈ delivered s2 p) :
+    outcome ((Sys.run H base s1) p) = outcome ((Sys.run H base s2) p) := by
+  obtain ⟨_, e2, e3, e4, e5, e6, e7, e8, e9, e10, e11⟩ := (schedule_feq ok s1 s2 c1 p hp hsame).fields
+  unfold outcome
+  rw [e2, e3, e4, e5, e6, e7, e8, e9, e10, e11]
+
+/-- (d) COMPLETION. A causal schedule that is fair to the end (`Complete`: everything emitted for a party has been
+    delivered to it) leaves EVERY party ended, without error, with the result `sessionValue base p` — a closed
+    formula: the sum over the rounds after the first and over the other parties `q` of the scripted values
+    `honestV` of `q`'s broadcast and of `q`'s p2p message to `p`; the messages it has emitted are, in order, the
+    closed-form list `idealOut`; the messages emitted for it are the closed-form list `idealFor`; and its whole
+    outcome is the outcome of the reference run: its handler alone, given the list `idealFor` in order -/
+theorem complete_schedule_completes (H : Bytes → Bytes) (base : Script) (ok : SessionOk base) (sched : Sched)
+    (hc : Causal H base sched = true) (hfair : Complete base (Sys.run H base sched) sched = true) (p : Bytes)
+    (hp : p ∈ base.ids) :
+    terminal ((Sys.run H base sched) p) = true ∧ ((Sys.run H base sched) p).err = none ∧
+    ((Sys.run H base sched) p).result = some (sessionValue base p) ∧
+    ((Sys.run H base sched) p).out = idealOut H base p ∧
+    (Sys.run H base sched).emittedFor base p = idealFor H base p ∧
+    outcome ((Sys.run H base sched) p) = outcome (run H (scriptFor base p) ((idealFor H base p).map Call.accept)) := by
+  obtain ⟨h1, _, h3, h4, h5⟩ := System.complete_schedule_completes ok sched hc hfair p hp
+  refine ⟨all_terminal ok sched hc hfair p hp, h1, complete_value ok sched hc hfair p hp, h3, h4, ?_⟩
+  obtain ⟨_, e2, e3, e4, e5, e6, e7, e8, e9, e10, e11⟩ := h5.fields
+  unfold outcome
+  rw [e2, e3, e4, e5, e6, e7, e8, e9, e10, e11]
+
+/-- the closed formula, spelled out -/
+theorem sessionValue_eq (base : Script) (p : Bytes) :
+    sessionValue base p = ((base.rounds.drop 1).map fun sp => ((base.ids.filter (· != p)).map fun q =>
+      (if sp.recvB then honestV base q [] sp.num else 0) + (if sp.recvP then honestV base q p sp.num else 0)).sum).sum :=
+  rfl
+
+/-! non-vacuity: the 3-party, 4-round session of `Ex` (round 2: broadcast, 3: broadcast + p2p, 4: p2p) as a system -/
+namespace ExSys
+open Ex
+
+def b2 (q : Bytes) : Msg := mk q [] 2 true none
+def b3 (q : Bytes) : Msg := mk q [] 3 true (some [90, 78])
+def p3 (q p : Bytes) : Msg := mk q p 3 false (some [90, 78])
+def p4 (q p : Bytes) : Msg := mk q p 4 false (some [90, 97])
+
+/-- NOT in order: party 2 finishes round 2 first; party 1 gets round-3 messages (p2p before broadcast) while it is
+    still in round 2, a duplicate, and party 2 gets a round-4 message while it is in round 3 -/
+def sched : Sched :=
+  [([2], b2 [1]), ([2], b2 [3]),
+   ([1], p3 [2] [1]), ([1], b3 [2]),
+   ([3], b2 [2]), ([3], b2 [1]),
+   ([1], b2 [3]), ([1], b2 [2]), ([1], b2 [3]),
+   ([1], p3 [3] [1]), ([1], b3 [3]),
+   ([2], p4 [1] [2]),
+   ([2], p3 [3] [2]), ([2], p3 [1] [2]), ([2], b3 [3]), ([2], b3 [1]),
+   ([3], p3 [1] [3]), ([3], b3 [2]), ([3], b3 [1]), ([3], p3 [2] [3]),
+   ([1], p4 [2] [1]), ([1], p4 [3] [1]),
+   ([2], p4 [3] [2]),
+   ([3], p4 [1] [3]), ([3], p4 [2] [3])]
+
+/-- the round-by-round schedule -/
+def inorder : Sched :=
+  [([1], b2 [2]), ([1], b2 [3]), ([2], b2 [1]), ([2], b2 [3]), ([3], b2 [1]), ([3], b2 [2]),
+   ([1], b3 [2]), ([1], b3 [3]), ([1], p3 [2] [1]), ([1], p3 [3] [1]),
+   ([2], b3 [1]), ([2], b3 [3]), ([2], p3 [1] [2]), ([2], p3 [3] [2]),
+   ([3], b3 [1]), ([3], b3 [2]), ([3], p3 [1] [3]), ([3], p3 [2] [3]),
+   ([1], p4 [2] [1]), ([1], p4 [3] [1]), ([2], p4 [1] [2]), ([2], p4 [3] [2]), ([3], p4 [1] [3]), ([3], p4 [2] [3])]
+
+theorem session_ok : SessionOk sc3 := by decide
+set_option maxRecDepth 1000000 in
+theorem sched_causal : Causal Hx sc3 sched = true := by decide
+set_option maxRecDepth 1000000 in
+theorem inorder_causal : Causal Hx sc3 inorder = true := by decide
+/-- rounds of the messages delivered to party 1, in the order of delivery -/
+theorem sched_not_in_order : (delivered sched [1]).map (·.rnd) = [3, 3, 2, 2, 2, 3, 3, 4, 4] := by decide
+theorem same_sets : (∀ m ∈ delivered sched [1], m ∈ delivered inorder [1]) ∧
+    (∀ m ∈ delivered inorder [1], m ∈ delivered sched [1]) := by decide
+set_option maxRecDepth 1000000 in
+theorem sched_complete : Complete sc3 (Sys.run Hx sc3 sched) sched = true := by decide
+
+/-- the hypotheses of (a), (b) are satisfiable -/
+example : Honest Hx (scriptFor sc3 [2]) ((Sys.run Hx sc3 sched).emittedFor sc3 [2]) :=
+  emitted_honest Hx sc3 session_ok sched sched_causal [2] (by decide)
+example : ((Sys.run Hx sc3 sched) [3]).err = none := no_honest_abort Hx sc3 session_ok sched sched_causal [3] (by decide)
+/-- … of (c), with two different schedules -/
+example : outcome ((Sys.run Hx sc3 sched) [1]) = outcome ((Sys.run Hx sc3 inorder) [1]) :=
+  schedule_independent Hx sc3 session_ok sched inorder sched_causal inorder_causal [1] (by decide)
+    (fun m => ⟨same_sets.1 m, same_sets.2 m⟩)
+/-- … and of (d) -/
+example : ((Sys.run Hx sc3 sched) [2]).out = idealOut Hx sc3 [2] :=
+  (complete_schedule_completes Hx sc3 session_ok sched sched_causal sched_complete [2] (by decide)).2.2.2.1
+
+example : sessionValue sc3 [1] = 20064 ∧ sessionValue sc3 [2] = 16104 ∧ sessionValue sc3 [3] = 12144 := by decide
+
+-- the values the kernel computes for this session: results of the three parties, and the one echo function
+set_option maxRecDepth 1000000 in
+example : ((Sys.run Hx sc3 sched) [1]).result = some 20064 ∧ ((Sys.run Hx sc3 sched) [2]).result = some 16104 ∧
+    ((Sys.run Hx sc3 sched) [3]).result = some 12144 := by decide
+set_option maxRecDepth 100000 in
+example : gEcho Hx sc3 2 = some [90, 78] ∧ gEcho Hx sc3 3 = some [90, 97] ∧ gEcho Hx sc3 4 = none := by decide
+end ExSys
 
 end Mps.C07
